@@ -125,6 +125,7 @@ def c07(tier, seed):
               "predicates compared with the oracle's own game history (position strings, clock, material); non-trivial = distinct "
               "(position, occurrence count, clock>=100) triples")
     c.assumptions = API_ASSUME + ["games shorter than 800 positions (longer games are C10's business)"]
+    c.require("synth:only-ep-evasion", 40)
     for k, n in [("true:is_in_check", 500), ("true:is_checkmate", 100), ("true:is_stalemate", 30), ("true:is_repeated", 500),
                  ("true:threefold_repetition", 200), ("true:rule50", 200)]:
         c.require(k, n)
